@@ -55,11 +55,14 @@ def init (m : Nat) (initial : Bool) (s0in : Int) : State :=
 
 def toIntPairs (l : List (Nat × Nat)) : List (Int × Int) := l.map fun p => ((p.1 : Int), (p.2 : Int))
 
+/-- body of the `for lb, ub in epochs:` loop: the events contributed by one debounced epoch -/
+def evOfRun (detect : Detect) (s0 : Int) (len : Nat) (r : Int × Int) : List Event :=
+  (if detect.wantsRising && decide (r.1 > 0) then [Event.mk .rising (r.1 + s0)] else []) ++
+  (if detect.wantsFalling && decide (r.2 < (len : Int)) then [Event.mk .falling (r.2 + s0)] else [])
+
 /-- the `for lb, ub in epochs:` loop building the event list -/
 def blockEvents (detect : Detect) (s0 : Int) (len : Nat) (eps : List (Int × Int)) : List Event :=
-  eps.flatMap fun r =>
-    (if detect.wantsRising && decide (r.1 > 0) then [Event.mk .rising (r.1 + s0)] else []) ++
-    (if detect.wantsFalling && decide (r.2 < (len : Int)) then [Event.mk .falling (r.2 + s0)] else [])
+  eps.flatMap (evOfRun detect s0 len)
 
 /-- one iteration of the `while True:` loop -/
 def step (m : Nat) (detect : Detect) (st : State) (chunk : List Bool) : Except Err (State × Block) :=
